@@ -162,7 +162,7 @@ PROPS = {
         level_text=("kernel-checked: parse_eval_eq_denote / parseWoCompile_eval_eq_denote / flat_eval_eq_denote - for every operator table (priorities 0..=99, flagged operators associative), every interpretation (the parser is generic), every well-formed expression and every text whose token stream is the expression's canonical token stream, parse succeeds, lists the documented variables and eval = the documented value (parentheses first, unary tighter and right-to-left, descending priority, left-to-right among equals; re-grouping of flagged operators only where invisible for associative operators); evalNumbers_any_order for any number of operands (both bit trackers); text level: tokenize_render_spaced / parse_spaced_eval_eq_denote - for the rendering with a space before every token the statement holds from the TEXT on with no run-time hypothesis; other renderings: the tokens are checked per case at run time"),
         rule="random operator tables x random well-formed chains x random renderings; non-trivial = at least two binary operators; distinct by hash of the request (table, text)",
         kinds=[dict(kind="flat", quick=24000, thorough=1200000,
-                    corr=["wo", "vars", "nwo", "toksimpl"], oracle=[("wo_nf", "spec_nf"), ("vars", "svars"), ("toksimpl", "stoks")],
+                    corr=["wo", "vars", "nwo", "toksimpl"], oracle=[("wo_nf", "spec_nf"), ("c_nf", "spec_nf"), ("vars", "svars"), ("toksimpl", "stoks")],
                     guards=["render", "toks", "flatspec"], nontrivial=flat_nontrivial)],
     ),
     "C02": dict(
